@@ -10,13 +10,26 @@ func init() {
 	vrt.Register("VerifC11_Proto", VerifC11_Proto)
 }
 
+// verifPRename: the target descriptors name their fields differently from the source (the names of two
+// numbers are exchanged): projection goes by field number, names play no part.
+var verifPRename bool
+
+func verifPName(plain, renamed string) string {
+	if verifPRename {
+		return renamed
+	}
+	return plain
+}
+
 func verifPInner(mask int) *proto.TypeDescriptor {
 	m := proto.VerifNewMessage("Inner")
 	if mask&1 != 0 {
-		proto.VerifAddField(m, 1, "x", "x", proto.VerifBasic(proto.INT32), false)
+		n := verifPName("x", "y")
+		proto.VerifAddField(m, 1, n, n, proto.VerifBasic(proto.INT32), false)
 	}
 	if mask&2 != 0 {
-		proto.VerifAddField(m, 2, "y", "y", proto.VerifBasic(proto.STRING), false)
+		n := verifPName("y", "x")
+		proto.VerifAddField(m, 2, n, n, proto.VerifBasic(proto.STRING), false)
 	}
 	return proto.VerifBuild(m)
 }
@@ -24,16 +37,20 @@ func verifPInner(mask int) *proto.TypeDescriptor {
 func verifPOuter(mask int, inner *proto.TypeDescriptor) *proto.TypeDescriptor {
 	m := proto.VerifNewMessage("M")
 	if mask&1 != 0 {
-		proto.VerifAddField(m, 1, "a", "a", proto.VerifBasic(proto.SINT64), false)
+		n := verifPName("a", "b")
+		proto.VerifAddField(m, 1, n, n, proto.VerifBasic(proto.SINT64), false)
 	}
 	if mask&2 != 0 {
-		proto.VerifAddField(m, 2, "b", "b", proto.VerifBasic(proto.STRING), false)
+		n := verifPName("b", "a")
+		proto.VerifAddField(m, 2, n, n, proto.VerifBasic(proto.STRING), false)
 	}
 	if mask&4 != 0 {
-		proto.VerifAddField(m, 3, "c", "c", inner, false)
+		n := verifPName("c", "l")
+		proto.VerifAddField(m, 3, n, n, inner, false)
 	}
 	if mask&8 != 0 {
-		proto.VerifAddField(m, 4, "l", "l", inner, true)
+		n := verifPName("l", "c")
+		proto.VerifAddField(m, 4, n, n, inner, true)
 	}
 	return proto.VerifBuild(m)
 }
@@ -74,8 +91,11 @@ func VerifC11_Proto() {
 	imask := vrt.Param("IMASK")
 	ylen := vrt.Param("YLEN")
 	cnt := vrt.Param("CNT")
+	verifPRename = false
 	src := verifPOuter(15, verifPInner(3))
+	verifPRename = vrt.Param("RENAME") != 0
 	dst := verifPOuter(tmask, verifPInner(imask))
+	verifPRename = false
 	opts := &Options{DisallowUnknown: vrt.Bool()}
 	var full, proj []byte
 	if vrt.Bool() {
